@@ -154,6 +154,15 @@ def regenerate(repo, outdir):
            'From FQE Require Import Poly LoopSkel.\n\n')
     _write(os.path.join(outdir, 'Gen_propagator_loops.v'), hdr + text)
     res['Gen_propagator_loops'] = {'leaves': status, 'ok': not text == ''}
+    # --- fqe/fqe_ops/fqe_ops.py: the two sign exponents of TimeReversalOp.contract
+    src = open(os.path.join(repo, 'src/fqe/fqe_ops/fqe_ops.py')).read()
+    try:
+        text = py2coq.translate_trev_phases(src, 'TimeReversalOp', 'contract')
+        status = {'TimeReversalOp.contract': 'phases'}
+    except py2coq.Unsupported as e:
+        text, status = '', {'TimeReversalOp.contract': 'unsupported: %s' % e}
+    _write(os.path.join(outdir, 'Gen_trev_phases.v'), (HEADER % 'src/fqe/fqe_ops/fqe_ops.py') + text)
+    res['Gen_trev_phases'] = {'leaves': status, 'ok': not text == ''}
     return res
 
 
